@@ -46,6 +46,7 @@ bool Parser::parseTypeName(TypeNameSyntax*& typeName)
     SpecifierListSyntax* specList = nullptr;
     if (!parseSpecifierQualifierList(decl, specList))
         return false;
+    adoptTagDeclarationAsSpecifier(decl, specList);
 
     typeName = makeNode<TypeNameSyntax>();
     typeName->specs_ = specList;
